@@ -608,7 +608,16 @@ func (s *c10State) step(op ftOp, craft string) bool {
 	rc, c := s.rc, s.c
 	v := s.m.Apply(op)
 	rel := s.relation(op)
-	res := c.DeliverAs(s.signerIdx(op.Signer), op.msg())
+	var res chain.TxResult
+	if si := s.signerIdx(op.Signer); rc.Chance(0.05) {
+		// one transaction: the message, then a transfer of more than the signer owns; the transaction is refused as a
+		// whole and nothing of the first message may remain
+		huge, _ := sdk.NewIntFromString("1000000000000000000000000000000")
+		res = c.DeliverAs(si, op.msg(), bankSend(c.Accs[si].Addr, c.Accs[(si+1)%len(c.Accs)].Addr, sdk.NewCoins(sdk.NewCoin("ujkl", huge))))
+		rc.Count("messages_in_a_transaction_that_rolls_back", 1)
+	} else {
+		res = c.DeliverAs(si, op.msg())
+	}
 	rc.Eval(1)
 	rc.Count("msg/"+op.Kind, 1)
 	rc.Logf("h=%d %s: %s -> code=%d%s | model: permit=%v mustFail=%v (%s)", c.Height, s.actorName(op.Signer), op.String(), res.Code, nfLogTail(res), v.Permit, v.MustFail, v.Why)
